@@ -52,6 +52,12 @@ func runC07(args []string) error {
 	if err != nil {
 		return err
 	}
+	if sharedTmp, err = os.MkdirTemp(sim.ScratchBase(), "tmpdir-shared-"); err != nil {
+		return err
+	}
+	_ = os.WriteFile(filepath.Join(sharedTmp, "keep"), []byte("tmp "+Marker+"\n"), 0644)
+	_ = os.Setenv("TMPDIR", sharedTmp)
+	defer os.RemoveAll(sharedTmp)
 	results := make([]map[string]any, len(reqs))
 	errs := make([]error, len(reqs))
 	var wg sync.WaitGroup
@@ -157,6 +163,23 @@ func closeLive() {
 	livePool = map[int][]*liveSandbox{}
 }
 
+var tmpMu sync.RWMutex
+var sharedTmp string
+
+// tmpState renders the entries and the modification time of the shared $TMPDIR canary directory.
+func tmpState() string {
+	fi, err := os.Lstat(sharedTmp)
+	if err != nil {
+		return "gone"
+	}
+	es, _ := os.ReadDir(sharedTmp)
+	st := fmt.Sprintf("%d", fi.ModTime().UnixNano())
+	for _, e := range es {
+		st += "|" + e.Name()
+	}
+	return st
+}
+
 var snap0Mu sync.Mutex
 var snap0Key = map[int]string{}
 
@@ -213,6 +236,7 @@ func runC07Request(world map[string]any, rq map[string]any) (map[string]any, err
 		}
 	}()
 	seenBytes := len(c.AllBytes)
+	tmpBefore := ""
 	ev := map[string]any{}
 	for k, v := range rq {
 		ev[k] = v
@@ -247,6 +271,21 @@ func runC07Request(world map[string]any, rq map[string]any) (map[string]any, err
 	reps := []string{}
 
 	if kind == "acct" {
+		// $TMPDIR (process-wide) points at a canary directory outside every sandbox for the whole run; its entries and
+		// modification time are observed around every account request (a file created there and removed again still
+		// shows).  tmp = 1: the request runs alone with $TMPDIR pointing at a directory that does not exist.
+		if intOf(rq["tmp"]) == 1 {
+			tmpMu.Lock()
+			_ = os.Setenv("TMPDIR", filepath.Join(sharedTmp, "missing"))
+			defer func() {
+				_ = os.Setenv("TMPDIR", sharedTmp)
+				tmpMu.Unlock()
+			}()
+		} else {
+			tmpMu.RLock()
+			defer tmpMu.RUnlock()
+		}
+		tmpBefore = tmpState()
 		for _, o := range listOf(rq["ops"]) {
 			m, _ := o.(map[string]any)
 			r, err := acctOp(c, m)
@@ -300,6 +339,9 @@ func runC07Request(world map[string]any, rq map[string]any) (map[string]any, err
 		disclosed = 1
 	}
 	d := diffNodes(before, after)
+	if kind == "acct" && tmpState() != tmpBefore {
+		d = append(d, map[string]any{"d": "~", "p": compsJSON(toB([]string{"tmpdir-shared"})), "k": "dir", "s": 0})
+	}
 	closed := false
 	for _, r := range reps {
 		if r == "closed" {
